@@ -39,10 +39,26 @@ def cast(v, d):
     k = d.kind
     if isinstance(v, ndarray):
         v = v.scalar_value()
+    elif isinstance(v, (rnp.datetime64, rnp.timedelta64)) and k in "Mm":
+        v = float("nan") if rnp.isnat(v) else Fraction(int(v.astype(d).astype(rnp.int64)))
     elif isinstance(v, rnp.generic):
         v = from_real_scalar(v)
     if k == "O":
         return v
+    if k in "Mm":
+        # datetime64 / timedelta64: an integer count of units, NaT modelled by the NaN flag (NumPy gives NaT the
+        # same comparison, max/min and isnan behaviour).  Errors of item assignment (a Python float into a
+        # datetime array) come from the shadow execution on the real dtype.
+        if isinstance(v, SReal):
+            return v
+        if isinstance(v, (SInt, SBool)):
+            t, n, i = S.rparts(v)
+            return SReal(t, n, i, S.ipart(v))
+        if isinstance(v, float) and (math.isnan(v) or math.isinf(v)):
+            return float("nan")
+        if isinstance(v, (bool, int, Fraction, float)):
+            return Fraction(int(v))
+        raise HarnessError("cast of %r to %s" % (type(v), d))
     if k == "b":
         if isinstance(v, (bool, SBool)):
             return v
@@ -145,6 +161,8 @@ def from_real_scalar(x):
         if math.isnan(x) or math.isinf(x):
             return x
         return Fraction(x)
+    if isinstance(x, (rnp.datetime64, rnp.timedelta64)):
+        return float("nan") if rnp.isnat(x) else Fraction(int(x.astype(rnp.int64)))
     return x
 
 
@@ -329,6 +347,8 @@ class ndarray:
 
     def shadow(self):
         if self.o.ndim == 0:
+            if self.d.kind in "Mm":
+                return rnp.zeros((), self.d)[()]
             return self.d.type(0) if self.d.kind != "O" else None
         return rnp.zeros(self.o.shape, self.d)
 
